@@ -228,6 +228,10 @@ pub(crate) fn send(s: &UdpRef, data: &[u8], dst: Option<SocketAddr>) -> io::Resu
         return Err(io::Error::from_raw_os_error(libc::EMSGSIZE));
     }
     let dst_c = SocketAddr::new(canon_ip(dst.ip()), dst.port());
+    // an AF_INET socket cannot send to an IPv6 destination (a dual-stack AF_INET6 socket can send to IPv4)
+    if g.local.is_ipv4() && dst_c.is_ipv6() {
+        return Err(io::Error::from_raw_os_error(libc::EAFNOSUPPORT));
+    }
     let from = source_for(&w, &g, &dst_c);
     let id = g.id;
     let lost = chaos.udp_loss > 0 && g.rng.chance(chaos.udp_loss);
